@@ -228,7 +228,7 @@ def gen_cases(rng, tier):
     for ops in exhaustive(depth, 3):
         items.append(build(dict(kind=f"exh{depth}", ops=ops)))
     n_exh = len(items)
-    n_rand = 160 if tier == "quick" else 3000
+    n_rand = 160 if tier == "quick" else 2000
     rand = []
     for k in range(n_rand):
         r = rng.fork(f"sched{k}")
